@@ -144,14 +144,12 @@ class CountMinSketch(FrequencySketch[T]):
 
     def _hash(self, item: T, row: int) -> int:
         """Hash an item to a column index for a specific row."""
-        # Combine item hash with row-specific seed
-        item_hash = hash(item)
-        combined = item_hash ^ self._hash_seeds[row]
-        # Mask to 64 bits to avoid overflow in struct.pack
-        combined = combined & 0xFFFFFFFFFFFFFFFF
-        # Use another round of hashing for better distribution
+        # Hash the row-specific seed together with the item's repr (as BloomFilter
+        # and HyperLogLog do).  The builtin hash() is randomised per process for
+        # str/bytes items (PYTHONHASHSEED), which made estimates differ between runs.
         h = hashlib.sha256()
-        h.update(struct.pack(">Q", combined))
+        h.update(struct.pack(">Q", self._hash_seeds[row]))
+        h.update(repr(item).encode("utf-8"))
         return struct.unpack(">Q", h.digest()[:8])[0] % self._width
 
     @property
